@@ -7,6 +7,8 @@ import (
 	"net/url"
 	"sort"
 	"strings"
+	"sync"
+	"sync/atomic"
 	"time"
 
 	"verif/harness/core"
@@ -397,6 +399,79 @@ func c10Alg(scs []c10Scenario) func(r *core.Run, idx int, rng *rand.Rand) {
 	}
 }
 
+// c10Concurrent: an operation of the storage fails for everybody while TWO identical requests are in flight on one
+// provider. The first request to reach the failing operation is held inside the storage until the second has reached
+// the storage as well (or clearly never will, because it waits for the first one's result instead of asking itself).
+// Both replies are judged by the fail-closed clauses: a request that shares somebody else's failed read has failed too.
+func c10Concurrent(scs []c10Scenario) func(r *core.Run, idx int, rng *rand.Rand) {
+	return func(r *core.Run, idx int, _ *rand.Rand) {
+		const wl = "concurrent_requests_during_a_fault"
+		sc := &scs[idx]
+		_, base := sc.Run(sc.Opts, nil, false)
+		ops := map[string]bool{}
+		for _, p := range opSequence(base) {
+			ops[p.Op] = true
+		}
+		var names []string
+		for op := range ops {
+			names = append(names, op)
+		}
+		sort.Strings(names)
+		for _, op := range names {
+			for _, kind := range []string{sim.FaultError, sim.FaultPoolClosed} {
+				e, send := sc.run(sc.Opts)
+				var arrivals atomic.Int64
+				second := make(chan struct{})
+				var once sync.Once
+				e.W.Plan = func(_, o string, _ int) string {
+					if o == op {
+						return kind
+					}
+					return ""
+				}
+				e.W.Before = func(_ context.Context, _, o string, _ int) {
+					if o != op {
+						if arrivals.Load() > 0 {
+							once.Do(func() { close(second) })
+						}
+						return
+					}
+					if arrivals.Add(1) == 1 {
+						select {
+						case <-second:
+						case <-time.After(60 * time.Millisecond):
+						}
+					} else {
+						once.Do(func() { close(second) })
+					}
+				}
+				calls := make([]*env.Call, 2)
+				var wg sync.WaitGroup
+				for i := range calls {
+					wg.Add(1)
+					go func(i int) {
+						defer wg.Done()
+						if i == 1 {
+							// the second request starts when the first is inside the failing call (or has finished)
+							for k := 0; k < 2000 && arrivals.Load() == 0; k++ {
+								time.Sleep(50 * time.Microsecond)
+							}
+						}
+						calls[i] = send()
+					}(i)
+				}
+				wg.Wait()
+				for i, call := range calls {
+					class := fmt.Sprintf("%s|%s|%s|concurrent|request_%d", sc.Name, op, kind, i+1)
+					r.Eval(class)
+					r.Count("requests_judged_beside_a_concurrent_fault", 1)
+					c10Judge(r, wl, idx, class, sc, call, []faultPos{{Op: op, Occ: 0, Kind: kind}})
+				}
+			}
+		}
+	}
+}
+
 func init() {
 	register(&Prop{
 		ID: "C10", Level: "fault_enumeration", DeathIsViolation: true,
@@ -410,7 +485,7 @@ func init() {
 			}
 			sort.Strings(names)
 			r.Extra("scenarios", names)
-			r.Rule = "for each endpoint scenario (SSO redirect/POST signed/unsigned, SSO and logout with white space around the Issuer text, callback POST/Redirect/body, logout POST/redirect, attribute query, metadata signed/unsigned, certificate, readiness, health) a fault-free recording run yields the sequence of storage calls; then every (operation, occurrence) x fault kind {error - plain, timeout-class wrapping context.DeadlineExceeded, wrapping context.Canceled; for the two key getters also nil record, key without certificate, certificate without key, empty certificate} is injected singly (quick and thorough; once on a fresh provider and once right after the same request was served fault-free by the same provider; each also with the failing call delayed, with all other calls delayed, and - user lookups - failing after part of the record was delivered) and in pairs (thorough: the second fault at every call that still happens after the first, sequence re-recorded); the signing scenarios are re-run with unusable configured signature algorithms. After the first fault the reply must be HTTP 5xx or a non-Success SAML response: no panic, no Success, no user canary, no signed metadata, no persistence, no login redirect. Distinct = (scenario, fault positions and kinds); all non-trivial."
+			r.Rule = "for each endpoint scenario (SSO redirect/POST signed/unsigned, SSO and logout with white space around the Issuer text, callback POST/Redirect/body, logout POST/redirect, attribute query, metadata signed/unsigned, certificate, readiness, health) a fault-free recording run yields the sequence of storage calls; then every (operation, occurrence) x fault kind {error - plain, timeout-class wrapping context.DeadlineExceeded, wrapping context.Canceled; for the two key getters also nil record, key without certificate, certificate without key, empty certificate} is injected singly (quick and thorough; once on a fresh provider and once right after the same request was served fault-free by the same provider; each also with the failing call delayed, with all other calls delayed, and - user lookups - failing after part of the record was delivered) and in pairs (thorough: the second fault at every call that still happens after the first, sequence re-recorded); the signing scenarios are re-run with unusable configured signature algorithms; every operation is also made to fail for everybody while two identical requests are in flight (the first held inside the failing call until the second has reached the storage), both judged. After the first fault the reply must be HTTP 5xx or a non-Success SAML response: no panic, no Success, no user canary, no signed metadata, no persistence, no login redirect. Distinct = (scenario, fault positions and kinds); all non-trivial."
 			r.SetExhaustive(true)
 			r.Assume("exhaustive over the listed scenarios, their recorded call sequences and the listed fault kinds; other requests may reach other call sequences")
 			r.Require("single_faults_injected", 120)
@@ -421,6 +496,7 @@ func init() {
 				{Name: "single_faults", N: len(scs), Fn: c10Single(scs, false, false)},
 				{Name: "single_faults_after_good_request", N: len(scs), Fn: c10Single(scs, false, true)},
 				{Name: "unusable_algorithm", N: len(scs) * 5, Fn: c10Alg(scs)},
+				{Name: "concurrent_requests_during_a_fault", N: len(scs), Fn: c10Concurrent(scs)},
 			}
 			if c.Thorough {
 				wls = append(wls, core.Workload{Name: "fault_pairs", N: len(scs), Fn: c10Single(scs, true, false)})
